@@ -332,7 +332,74 @@ func genCase(seed int64, plugin string, caseNo int) *caseSpec {
 		b.Shape = fmt.Sprintf("n%s|par%s|bytes%s|%s|%s", sizeBucket(n), sizeBucket(np), byteBucket(total), b.Trigger, planTag)
 		cs.Batches = append(cs.Batches, b)
 	}
+	addGiveUp(cs, seed, caseNo, timeoutMode)
 	return cs
+}
+
+// addGiveUp turns one batch (not the last) of some split_batch cases into a
+// "partially delivered, then given up" batch: the sink answers 413 above a
+// limit that lets a leading part through and a retryable 5xx to every body
+// that holds a poison document, for as long as the plugin retries (retry 1..2,
+// retention 1ms). The batches that follow on the same worker are ordinary and
+// are judged as usual. A separate PRNG keeps all other cases unchanged.
+func addGiveUp(cs *caseSpec, seed int64, caseNo int, timeoutMode bool) {
+	c := &cs.Cfg
+	if !(c.Plugin == "elasticsearch" || c.Plugin == "http") || !c.Split || c.Raw || cs.Concurrent || timeoutMode || len(cs.Batches) < 2 {
+		return
+	}
+	gp := rand.New(rand.NewSource(seed ^ 0x6776557))
+	if gp.Intn(100) >= 40 {
+		return
+	}
+	var cand []int
+	for bi := 0; bi < len(cs.Batches)-1; bi++ {
+		if len(cs.Batches[bi].deliverable()) >= 2 {
+			cand = append(cand, bi)
+		}
+	}
+	if len(cand) == 0 {
+		return
+	}
+	bi := cand[gp.Intn(len(cand))]
+	b := &cs.Batches[bi]
+	nd := len(b.deliverable())
+	pd := nd/2 + gp.Intn(nd-nd/2) // poison document: in the second half, never the first
+	if pd == 0 {
+		pd = 1
+	}
+	marker := fmt.Sprintf("7777%03d%02d%03d", caseNo%1000, bi, pd)
+	total, prefix, di := 0, 0, 0
+	for i := range b.Events {
+		e := &b.Events[i]
+		if e.Kind == "parent" {
+			continue
+		}
+		if di == pd {
+			e.Tree.set("poisonmark", jnum(marker))
+			e.Text = render(e.Tree, &renderOpt{rng: gp, shortEsc: true})
+		}
+		if di < pd {
+			prefix += len(e.Text) + 50
+		}
+		total += len(e.Text) + 50
+		di++
+	}
+	limit := 0
+	switch gp.Intn(4) {
+	case 0:
+		limit = total * 3 / 4
+	case 1:
+		limit = total/2 + 60
+	case 2:
+		limit = prefix + 20
+	default:
+		limit = total - 30
+	}
+	c.Retry = 1 + gp.Intn(2)
+	b.Plan = sinkPlan{Limit: limit, FailCode: []int{500, 503, 502, 429}[gp.Intn(4)], Poison: marker}
+	if i := strings.LastIndex(b.Shape, "|"); i >= 0 {
+		b.Shape = b.Shape[:i] + "|giveup"
+	}
 }
 
 // violationOut is what a child reports for one refuting observation.
@@ -494,7 +561,17 @@ func (j *batchJudge) onCapture(c *capture) {
 	}
 	if c.Accepted {
 		n, f := j.alignAndCheck(recs, j.next)
+		if f != nil && j.roundOver && j.next > 0 {
+			// a new round after a retryable failure may start the batch over
+			if n0, f0 := j.alignAndCheck(recs, 0); f0 == nil {
+				j.next, n, f = 0, n0, nil
+			}
+		}
+		j.roundOver = false
 		j.next += n
+		if j.next > j.maxNext {
+			j.maxNext = j.next
+		}
 		if f != nil {
 			j.fail(f, c)
 		} else if j.attempts == 1 {
@@ -505,13 +582,27 @@ func (j *batchJudge) onCapture(c *capture) {
 	// a rejected request: well-formed, and a contiguous run of the batch that
 	// starts at or after the first event not yet accepted
 	j.rejected++
+	lo := j.next
+	if j.roundOver {
+		lo = 0 // the retry may start the batch over
+	}
+	retryable := c.Status != 413
+	defer func() {
+		if retryable {
+			j.roundOver = true
+			j.retryable++
+		}
+	}()
 	var best *failure
-	for start := j.next; start <= len(j.exp); start++ {
-		if start > j.next && !(j.s.cfg.Split && j.b.Plan.Limit > 0) {
+	for start := lo; start <= len(j.exp); start++ {
+		if start > lo && !(j.s.cfg.Split && j.b.Plan.Limit > 0) {
 			break // without a split a rejected body is the whole (rest of the) batch
 		}
 		n, f := j.alignAndCheck(recs, start)
 		if f == nil {
+			if j.roundOver && !retryable && start < j.next {
+				j.next = start // a 413 for a body that starts before the accepted prefix: the batch was started over
+			}
 			if c.Status == 413 && len(recs) == 1 && n >= 1 {
 				j.single413 = start + n - 1
 			}
@@ -551,6 +642,9 @@ func (j *batchJudge) finish(dropExcused bool) {
 	}
 	missing := 0
 	firstMissing := -1
+	if j.maxNext > j.next {
+		j.next = j.maxNext
+	}
 	for k := j.next; k < len(j.exp); k++ {
 		if !j.s.optional(&j.exp[k]) {
 			missing++
@@ -651,6 +745,7 @@ func runCase(cs *caseSpec, scratch string, res *caseResult) {
 		return
 	}
 
+	afterGiveUp, sinceGiveUp := false, 0
 	for bi := range cs.Batches {
 		b := &cs.Batches[bi]
 		exp := b.deliverable()
@@ -694,6 +789,9 @@ func runCase(cs *caseSpec, scratch string, res *caseResult) {
 		// a bisection of n events needs at most 2n-1 requests; add the scripted
 		// failures, the plugin's 10 retries and a margin
 		maxReq := 4*len(evs) + 2*b.Plan.FailFirst + 40
+		if b.Plan.Poison != "" {
+			maxReq = (c.retry()+3)*(2*len(evs)+2) + 40 // every attempt may bisect the whole batch again
+		}
 		committed, storm := s.waitBatch(len(evs), maxReq, 60*time.Second)
 		if storm {
 			s.abandoned = true
@@ -763,6 +861,29 @@ func runCase(cs *caseSpec, scratch string, res *caseResult) {
 		dropExcused := b.Plan.Limit > 0 && !c.Split && rejected413 > 0
 		if b.Plan.Limit > 0 && c.Split && accepted == 0 && rejected413 > 0 && j.single413 >= 0 && j.next == 0 && j.single413 == 0 && len(exp) == 1 {
 			dropExcused = true
+		}
+		// a batch the plugin gave up after its retries (documented: "skip message") is excused too;
+		// what it did send must still be well-formed, in order, and the batches after it complete
+		gaveUp := b.Plan.Poison != "" && j.retryable > 0
+		if gaveUp {
+			dropExcused = true
+		}
+		if afterGiveUp {
+			res.count("batches_after_a_given_up_batch", 1)
+			if sinceGiveUp == 0 {
+				res.count("batch_right_after_a_given_up_batch", 1)
+			}
+			sinceGiveUp++
+		}
+		if gaveUp {
+			res.count("giveup_batches", 1)
+			if j.maxNext > 0 {
+				res.count("giveup_after_partial_accept", 1)
+				afterGiveUp, sinceGiveUp = true, 0
+			}
+			if j.retryable >= c.retry()+2 {
+				res.count("giveup_retries_exhausted", 1)
+			}
 		}
 		j.finish(dropExcused)
 		report(bi, b, j, caps)
